@@ -264,7 +264,7 @@ func c14MustEncode(format string, t reflect.Type, rank int) bool {
 }
 
 func c14Run(c *core.Ctx, format, lay string) {
-	dir, err := os.MkdirTemp("", "verif-c14-")
+	dir, err := os.MkdirTemp(c.WorkDir, "verif-c14-") // under /verif/.build/logs/C14 (system temp dir only in replay mode)
 	if err != nil {
 		c.Inconclusive("tempdir")
 		return
